@@ -240,4 +240,4 @@ def prop(case):
     return Obs(differs and any(in_fo) and not all(in_fo), labels, checks=len(calls) + len(outs))
 
 
-PARTS = [Part('inject', prop, strategy=cases, quick=(8, 250), thorough=(16, 3000))]
+PARTS = [Part('inject', prop, strategy=cases, quick=(8, 250), thorough=(16, 10000))]
